@@ -166,6 +166,15 @@ fn c01_family<S: Sch>(t: Tier, seed: u64, out: &mut Vec<Entry>) {
         let c = mk(vec![PolySpec::new(2)], 0).points(2, vec![(0, 0), (0, 1)]);
         add("1p2z-alias-batch", c, Mode::Batch);
     }
+    // several point labels that carry one point value (not left to the solver)
+    {
+        let mut c = mk(vec![PolySpec::new(2).conc(), PolySpec::new(2).conc()], 0).points(2, vec![(0, 0), (1, 1)]);
+        c.share_point = true;
+        add("2p2z-shared-point-batch", c, Mode::Batch);
+        let mut c = mk(vec![PolySpec::new(2).conc(), PolySpec::new(2).conc()], 0).points(3, vec![(0, 0), (1, 0), (0, 1), (1, 2)]);
+        c.share_point = true;
+        add("2p3z-shared-point-batch", c, Mode::Batch);
+    }
     // single opening of three polynomials listed in descending label order on both sides
     {
         let mut c = mk(vec![PolySpec::new(2).conc(), PolySpec::new(2).conc(), PolySpec::new(2).conc()], 0);
@@ -223,6 +232,14 @@ fn c02_family<S: Sch>(t: Tier, seed: u64, out: &mut Vec<Entry>) {
     add("1p1z-val-zero-poly", mk(vec![PolySpec::new(2).zero()], 0), Mode::Single, Kind::Value(0), false);
     add("2p1z-val@1-zero-poly", mk(vec![PolySpec::new(2).conc(), PolySpec::new(2).zero()], 0), Mode::Single, Kind::Value(1), false);
     add("2p1z-val@0-next-to-zero-poly", mk(vec![PolySpec::new(2).conc(), PolySpec::new(2).zero()], 0), Mode::Batch, Kind::Value(0), false);
+    {
+        // two point labels with one (symbolic) point value: a false value at either label
+        for pos in 0..2usize {
+            let mut c = mk(vec![PolySpec::new(2).conc(), PolySpec::new(2).conc()], 0).points(2, vec![(0, 0), (1, 1)]);
+            c.share_point = true;
+            add(&format!("2p2z-shared-point-batch-val@{}", pos), c, Mode::Batch, Kind::Value(pos), false);
+        }
+    }
     // every position of a batched opening; the two point labels carry independent symbolic points, so that the
     // shared-point-value case is the solver's to find wherever the code compares points
     add("1p2z-batch-val@0", mk(vec![PolySpec::new(2)], 0).points(2, vec![(0, 0), (0, 1)]), Mode::Batch, Kind::Value(0), false);
@@ -446,6 +463,11 @@ fn c05_family<S: Sch>(t: Tier, seed: u64, out: &mut Vec<Entry>) {
     add("equiv-2p2z-cross", lin(mk(2, 2, vec![(0, 0), (1, 0), (0, 1), (1, 1)])), Box::new(|c| c05::equiv::<S>(c, 3, false)));
     add("equiv-1p2z", lin(mk(1, 2, vec![(0, 0), (0, 1)])), Box::new(|c| c05::equiv::<S>(c, 3, false)));
     add("equiv-1p2z-symbolic-points", mk(1, 2, vec![(0, 0), (0, 1)]), Box::new(|c| c05::equiv::<S>(c, 3, false)));
+    // several point labels carrying one point value: the claims at the shared point are still separate claims
+    let shared = |mut c: Cfg| -> Cfg { c.share_point = true; c };
+    add("equiv-1p2z-shared-point", shared(lin(mk(1, 2, vec![(0, 0), (0, 1)]))), Box::new(|c| c05::equiv::<S>(c, 3, false)));
+    add("equiv-2p2z-shared-point", shared(lin(mk(2, 2, vec![(0, 0), (1, 1)]))), Box::new(|c| c05::equiv::<S>(c, 3, false)));
+    add("equiv-2p3z-shared-point", shared(lin(mk(2, 3, vec![(0, 0), (1, 1), (0, 2), (1, 2)]))), Box::new(|c| c05::equiv::<S>(c, 4, false)));
     add("equiv-honest-3p3z", mk(3, 3, vec![(0, 0), (1, 0), (1, 1), (2, 1), (2, 2), (0, 2)]), Box::new(|c| c05::equiv::<S>(c, 2, true)));
     add("equiv-1p3z", lin(mk(1, 3, vec![(0, 0), (0, 1), (0, 2)])), Box::new(|c| c05::equiv::<S>(c, 4, false)));
     add("equiv-2p3z", lin(mk(2, 3, vec![(0, 0), (1, 0), (0, 1), (1, 2)])), Box::new(|c| c05::equiv::<S>(c, 4, false)));
